@@ -30,7 +30,8 @@ use lightning::ln::msgs::{
 use lightning::routing::gossip::{NetworkGraph, NetworkUpdate, NodeAlias, NodeId, P2PGossipSync};
 use lightning::routing::utxo::{UtxoLookup, UtxoLookupError, UtxoResult};
 use lightning::types::features::{ChannelFeatures, NodeFeatures};
-use lightning::util::ser::{ReadableArgs, Writeable};
+use lightning::util::ser::{BigSize, ReadableArgs, Writeable};
+use lightning_rapid_gossip_sync::{GraphSyncError, RapidGossipSync};
 use lightning::util::wakers::Notifier;
 use std::collections::HashMap;
 use std::panic::AssertUnwindSafe;
@@ -77,6 +78,8 @@ enum Op {
 	Fc { scid: u64 },
 	Fn { id: u64 },
 	Pr { t: u64 },
+	/// rapid-gossip-sync snapshot: nodes = detail bits per pool node (rank order), anns = (scid, cap, n1, n2), upds = (scid, flags, cltv, min, base, prop, max)
+	Rgs { latest: u64, now: Option<u64>, d: [u64; 5], nodes: Vec<u8>, anns: Vec<(u64, Option<u64>, u64, u64)>, upds: Vec<(u64, u8, [u64; 5])> },
 }
 
 fn b(x: bool) -> u8 { x as u8 }
@@ -92,9 +95,10 @@ impl Op {
 			Op::Fc { scid } => format!("fc {} {}", scid, t0),
 			Op::Fn { id } => format!("fn {} {}", id, t0),
 			Op::Pr { t } => format!("pr {}", t),
+			Op::Rgs { .. } => unreachable!("rgs lines need the key parities: Ctx::rgs_line"),
 		}
 	}
-	fn kind(&self) -> &'static str { match self { Op::Ca { .. } => "ca", Op::Cp { .. } => "cp", Op::Cu { .. } => "cu", Op::Na { .. } => "na", Op::Fc { .. } => "fc", Op::Fn { .. } => "fn", Op::Pr { .. } => "pr" } }
+	fn kind(&self) -> &'static str { match self { Op::Ca { .. } => "ca", Op::Cp { .. } => "cp", Op::Cu { .. } => "cu", Op::Na { .. } => "na", Op::Fc { .. } => "fc", Op::Fn { .. } => "fn", Op::Pr { .. } => "pr", Op::Rgs { .. } => "rgs" } }
 	fn is_msg(&self) -> bool { matches!(self, Op::Ca { .. } | Op::Cu { .. } | Op::Na { .. }) }
 }
 
@@ -118,6 +122,7 @@ fn err_kind(e: &LightningError) -> String {
 		else if s == "Update older than last processed update" { "Older" }
 		else if s == "Update had same timestamp as last processed update" || s == "Update had the same timestamp as last processed update" { "SameTimestamp" }
 		else if s == "No existing channels for node_announcement" { "NoChannelsForNode" }
+		else if s == "Rapid Gossip Sync data is more than two weeks old" { "RgsStale" }
 		else { return format!("err Other({})", s.replace(' ', "_")); };
 	let a = format!("{:?}", e.action);
 	let a = a.split(|c: char| !c.is_alphanumeric()).next().unwrap().to_string();
@@ -168,6 +173,66 @@ impl Ctx {
 		NodeAnnouncement { signature: self.secp.sign_ecdsa(&h, if sig_ok { self.sk_of(node) } else { self.sk_of(node % NK as u64 + 1) }), contents }
 	}
 
+	fn line(&self, op: &Op) -> String { if let Op::Rgs { .. } = op { self.rgs_line(op) } else { op.line(self.t0) } }
+	/// first byte of node `rank`'s entry in a version-2 snapshot: key parity | detail bits
+	fn rgs_flag(&self, rank: usize, bits: u8) -> u8 { self.node_pk[rank].serialize()[0] | bits }
+	fn rgs_line(&self, op: &Op) -> String {
+		if let Op::Rgs { latest, now, d, nodes, anns, upds } = op {
+			let mut l = format!("rgs {} {} {} {} {} {} {} N {}", latest, now.map(|t| t.to_string()).unwrap_or("-".into()), d[0], d[1], d[2], d[3], d[4], nodes.len());
+			for (i, bits) in nodes.iter().enumerate() { l.push_str(&format!(" {} {}", i + 1, self.rgs_flag(i, *bits))); }
+			l.push_str(&format!(" A {}", anns.len()));
+			for a in anns { l.push_str(&format!(" {} {} {} {}", a.0, a.1.map(|c| c.to_string()).unwrap_or("-".into()), a.2, a.3)); }
+			l.push_str(&format!(" U {}", upds.len()));
+			for u in upds { l.push_str(&format!(" {} {} {} {} {} {} {}", u.0, u.1, u.2[0], u.2[1], u.2[2], u.2[3], u.2[4])); }
+			l
+		} else { unreachable!() }
+	}
+	/// the version-2 wire encoding of the snapshot (what an RGS server would send)
+	fn rgs_bytes(&self, op: &Op) -> Vec<u8> {
+		if let Op::Rgs { latest, d, nodes, anns, upds, .. } = op {
+			let mut o = vec![76u8, 68, 75, 2];
+			o.extend(Self::chain(true).encode());
+			o.extend((*latest as u32).to_be_bytes());
+			o.push(2); // two default feature sets
+			o.extend(NodeFeatures::empty().encode()); o.extend(NodeFeatures::empty().encode());
+			o.extend((nodes.len() as u32).to_be_bytes());
+			for (i, bits) in nodes.iter().enumerate() {
+				let mut pk = self.node_pk[i].serialize();
+				pk[0] = self.rgs_flag(i, *bits);
+				o.extend(pk);
+				let marker = (bits >> 3) & 7;
+				if bits & 64 != 0 || bits & 4 != 0 || marker > 0 {
+					if bits & 4 != 0 { o.push(0); } // no addresses
+					if marker == 7 { o.extend(NodeFeatures::empty().encode()); }
+				}
+				if bits & 128 != 0 { o.extend([0u8, 2, 0xab, 0xcd]); }
+			}
+			o.extend((anns.len() as u32).to_be_bytes());
+			let mut prev = 0u64;
+			for a in anns {
+				o.extend(ChannelFeatures::empty().encode());
+				o.extend(BigSize(a.0 - prev).encode()); prev = a.0;
+				o.extend(BigSize(a.2 - 1).encode());
+				o.extend(BigSize((a.3 - 1) | if a.1.is_some() { 1 << 63 } else { 0 }).encode());
+				if let Some(c) = a.1 { let e = BigSize(c).encode(); o.extend((e.len() as u16).to_be_bytes()); o.extend(e); }
+			}
+			o.extend((upds.len() as u32).to_be_bytes());
+			if upds.is_empty() { return o; }
+			o.extend((d[0] as u16).to_be_bytes()); o.extend(d[1].to_be_bytes()); o.extend((d[2] as u32).to_be_bytes()); o.extend((d[3] as u32).to_be_bytes()); o.extend(d[4].to_be_bytes());
+			let mut prev = 0u64;
+			for u in upds {
+				o.extend(BigSize(u.0 - prev).encode()); prev = u.0;
+				o.push(u.1);
+				if u.1 & 64 != 0 { o.extend((u.2[0] as u16).to_be_bytes()); }
+				if u.1 & 32 != 0 { o.extend(u.2[1].to_be_bytes()); }
+				if u.1 & 16 != 0 { o.extend((u.2[2] as u32).to_be_bytes()); }
+				if u.1 & 8 != 0 { o.extend((u.2[3] as u32).to_be_bytes()); }
+				if u.1 & 4 != 0 { o.extend(u.2[4].to_be_bytes()); }
+			}
+			o
+		} else { unreachable!() }
+	}
+
 	/// run one op on the real graph; the answer line
 	fn apply(&self, g: &Graph, op: &Op) -> String {
 		let res = |r: Result<(), LightningError>| match r { Ok(()) => "ok".to_string(), Err(e) => err_kind(&e) };
@@ -201,7 +266,26 @@ impl Ctx {
 			Op::Fc { scid } => { g.handle_network_update(&NetworkUpdate::ChannelFailure { short_channel_id: *scid, is_permanent: true }); "done".into() },
 			Op::Fn { id } => { g.handle_network_update(&NetworkUpdate::NodeFailure { node_id: self.node_pk[(*id as usize - 1) % NK], is_permanent: true }); "done".into() },
 			Op::Pr { t } => { g.remove_stale_channels_and_tracking_with_time(*t); "done".into() },
+			Op::Rgs { now, .. } => {
+				let sync = RapidGossipSync::new(g, &LOGGER);
+				match sync.update_network_graph_no_std(&self.rgs_bytes(op), *now) {
+					Ok(_) => "done".into(),
+					Err(GraphSyncError::LightningError(e)) => err_kind(&e),
+					Err(GraphSyncError::DecodeError(e)) => format!("err Decode({:?})", e),
+				}
+			},
 		}
+	}
+	/// every stored (last_update, content) of the graph: channel directions and node announcements
+	fn all_stamps(&self, g: &Graph) -> HashMap<(u64, u8), (u32, String)> {
+		let ro = g.read_only();
+		let mut m = HashMap::new();
+		for (scid, c) in ro.channels().unordered_iter() {
+			if let Some(u) = &c.one_to_two { m.insert((*scid, 0u8), (u.last_update, format!("{:?}", u))); }
+			if let Some(u) = &c.two_to_one { m.insert((*scid, 1u8), (u.last_update, format!("{:?}", u))); }
+		}
+		for (id, n) in ro.nodes().unordered_iter() { if let Some(a) = &n.announcement_info { m.insert((self.rank_of(id), 2u8), (a.last_update(), format!("{:?}", a))); } }
+		m
 	}
 
 	fn dump(&self, g: &Graph, tomb: bool) -> String {
@@ -323,6 +407,29 @@ impl Gen {
 		let signer = match rng.below(10) { 0 => GARBAGE, 1 => right.map(|r| r % NK as u64 + 1).unwrap_or(1), 2 => dir_node(ctx, g, scid, !dir).unwrap_or(2), _ => right.unwrap_or(1 + rng.below(NK as u64)) };
 		Op::Cu { scid, dir, disabled: rng.chance(1, 4), ts: tm.stamp(rng), cltv: *rng.pick(&[18u64, 40, 144]), min: rng.below(3), max, base: rng.below(1000), prop: rng.below(50), chain_ok: !rng.chance(1, 25), dont_fwd: rng.chance(1, 25), verify: !rng.chance(1, 8), signer }
 	}
+	/// a snapshot: announcements sorted by scid, at most one update per (scid, direction), sorted
+	fn rgs(&self, rng: &mut Rng, tm: &Times, now: Option<u64>) -> Op {
+		let latest = tm.stamp(rng) + if rng.chance(1, 2) { TRACK } else { 0 };
+		let nodes: Vec<u8> = (0..NK).map(|_| match rng.below(10) { 0..=4 => 0u8, 5 => 64, 6 => 4, 7 => (1 + rng.below(2) as u8) << 3, 8 => 7 << 3, _ => 128 | if rng.chance(1, 2) { 64 } else { 0 } }).collect();
+		let mut anns = vec![];
+		for scid in 1..=self.scids + 1 {
+			if !rng.chance(1, 3) { continue; }
+			let a = 1 + rng.below(NK as u64 - 1);
+			let (n1, n2) = (if rng.chance(1, 20) { a + 1 } else { a }, a + 1 + rng.below(NK as u64 - a));
+			anns.push((scid, match rng.below(3) { 0 => None, 1 => Some(700), _ => Some(*rng.pick(&[5u64, 2_000_000, MAX_VALUE_MSAT / 1000 + 1])) }, n1, n2));
+		}
+		let mut upds = vec![];
+		if !rng.chance(1, 6) {
+			for scid in 1..=self.scids + 1 { for dir in 0..2u8 {
+				if !rng.chance(2, 5) { continue; }
+				let mut flags = dir | if rng.chance(1, 4) { 2 } else { 0 };
+				if rng.chance(1, 2) { flags |= 128; }
+				for bit in [64u8, 32, 16, 8, 4] { if rng.chance(1, 3) { flags |= bit; } }
+				upds.push((scid, flags, [*rng.pick(&[18u64, 40, 144]), rng.below(3), rng.below(1000), rng.below(50), *rng.pick(&[1u64, 4000, 900_000, 5001, MAX_VALUE_MSAT + 1])]));
+			} }
+		}
+		Op::Rgs { latest, now, d: [*rng.pick(&[18u64, 72]), rng.below(3), rng.below(1000), rng.below(50), *rng.pick(&[4000u64, 900_000])], nodes, anns, upds }
+	}
 	fn na(&self, rng: &mut Rng, tm: &Times) -> Op {
 		Op::Na { node: 1 + rng.below(NK as u64), ts: tm.stamp(rng), payload: rng.below(1 << 24), verify: !rng.chance(1, 8), sig_ok: !rng.chance(1, 6) }
 	}
@@ -347,7 +454,8 @@ impl<'a> Runner<'a> {
 		let forged = wrongly_signed(ctx, g, op);
 		let prev = match op { Op::Cu { scid, dir, .. } => dir_last_update(g, *scid, *dir), Op::Na { node, .. } => node_last_update(ctx, g, *node), _ => None };
 		let pre_chan: Option<Option<u64>> = match op { Op::Cu { scid, .. } => g.read_only().channel(*scid).map(|c| c.capacity_sats), _ => None };
-		let line = op.line(ctx.t0);
+		let line = ctx.line(op);
+		let stamps_before = if let Op::Rgs { .. } = op { Some(ctx.all_stamps(g)) } else { None };
 		let ans = match guarded(AssertUnwindSafe(|| ctx.apply(g, op))) { Ok(a) => a, Err(p) => format!("panic {}", p.replace(' ', "_")) };
 		let after = ctx.dump(g, true);
 		if ans.starts_with("panic") { self.rec.oracle_fail(format!("panic in the library on `{}`: {} (graph before: {})", line, ans, before)); }
@@ -359,6 +467,12 @@ impl<'a> Runner<'a> {
 		let now = match op { Op::Cu { scid, dir, .. } => dir_last_update(g, *scid, *dir), Op::Na { node, .. } => node_last_update(ctx, g, *node), _ => None };
 		if let (Some(p), Some(n)) = (&prev, &now) {
 			if n.0 < p.0 || (n.0 == p.0 && n.1 != p.1) { self.rec.oracle_fail(format!("stored last_update went back or was replaced at an equal timestamp: `{}` => {}; before: {}; after: {}", line, ans, before, after)); }
+		}
+		// a snapshot never replaces a stored update / node announcement by an older or equally old one
+		if let Some(sb) = stamps_before {
+			let sa = ctx.all_stamps(g);
+			for (k, p) in sb.iter() { if let Some(n) = sa.get(k) { if n.0 < p.0 || (n.0 == p.0 && n.1 != p.1) {
+				self.rec.oracle_fail(format!("rapid-gossip-sync snapshot replaced stored gossip by older or equally old data at {:?}: `{}` => {}; before: {}; after: {}", k, line, ans, before, after)); } } }
 		}
 		if op.is_msg() && ans == "ok" {
 			// reject rules, checked from the message and the channel entry before the call
@@ -372,7 +486,7 @@ impl<'a> Runner<'a> {
 		let mut first = ans.split(' ').take(2).collect::<Vec<_>>().join(" ");
 		match op {
 			Op::Ca { scid, .. } if ans == "ok" && (before.contains(&format!(" {}:", scid)) && before.split(" | N ").next().unwrap().contains(&format!(" {}:", scid))) => first.push_str("-replaced"),
-			Op::Fc { .. } | Op::Fn { .. } | Op::Pr { .. } => first.push_str(if before != after { "-changed" } else { "-noop" }),
+			Op::Fc { .. } | Op::Fn { .. } | Op::Pr { .. } | Op::Rgs { .. } => first.push_str(if before != after { "-changed" } else { "-noop" }),
 			_ => {}
 		}
 		self.rec.case(&line, &ans, &format!("{}{}:{}", tag, op.kind(), first), true);
@@ -442,7 +556,8 @@ fn main() {
 			let op = match rng.below(100) {
 				0..=19 => gen.ca(&mut rng, valid_bias),
 				20..=24 => { let (a, c) = (1 + rng.below(NK as u64 - 1), rng.below(4)); Op::Cp { scid: 1 + rng.below(gen.scids), cap: if c == 0 { None } else { Some(c * 700) }, recv: tm.stamp(&mut rng), n1: if rng.chance(1, 12) { a + 1 } else { a }, n2: a + 1 + rng.below(NK as u64 - a) } },
-				25..=62 => gen.cu(&mut rng, &ctx, &g, &tm, None),
+				25..=57 => gen.cu(&mut rng, &ctx, &g, &tm, None),
+				58..=62 => { let now = if rng.chance(1, 4) { Some(tm.prune_time(&mut rng, last_explicit_prune, wall_tombs)) } else { None }; gen.rgs(&mut rng, &tm, now) },
 				63..=76 => gen.na(&mut rng, &tm),
 				77..=82 if !recent.is_empty() => { // duplicate or conflicting copy of a recent message
 					let mut o = rng.pick(&recent).clone();
@@ -454,7 +569,7 @@ fn main() {
 				91..=97 => Op::Pr { t: tm.prune_time(&mut rng, last_explicit_prune, wall_tombs) },
 				_ => gen.cu(&mut rng, &ctx, &g, &tm, None),
 			};
-			match &op { Op::Pr { t } if *t >= STALE && *t <= u32::MAX as u64 => last_explicit_prune = Some(*t), Op::Fc { .. } | Op::Fn { .. } => wall_tombs = true, _ => {} }
+			match &op { Op::Pr { t } | Op::Rgs { now: Some(t), .. } if *t >= STALE && *t <= u32::MAX as u64 => last_explicit_prune = Some(*t), Op::Fc { .. } | Op::Fn { .. } => wall_tombs = true, _ => {} }
 			r.exec(&g, &op, "A:");
 			if op.is_msg() { recent.push(op); if recent.len() > 12 { recent.remove(0); } }
 			if k % 8 == 7 { r.dump(&g, true); }
@@ -558,11 +673,62 @@ fn main() {
 		}
 		stats.insert("replace_branch_order_dependent_on_real_code", (dumps[0] != dumps[1]) as u64);
 	}
+	// ---------------- phase E: rapid-gossip-sync scenarios ------------------------------------------
+	{
+		let ok_ca = |scid, n1, n2| Op::Ca { scid, n1, n2, same_btc: false, chain_ok: true, verify: true, sigs: [true; 4], utxo: Utxo::NoLookup };
+		let t = ctx.t0 - 100_000;
+		let snap = |anns: Vec<(u64, Option<u64>, u64, u64)>, upds: Vec<(u64, u8, [u64; 5])>| Op::Rgs { latest: t + TRACK + 50, now: None, d: [40, 1, 10, 20, 900_000], nodes: vec![0, 64, 0, 0, 0], anns, upds };
+		// (1) every generated snapshot applied twice: the second application changes nothing (oracle on the real graph)
+		let n_idem = if args.thorough { 3000 } else { 300 };
+		let mut idem_changed_first = 0u64;
+		for _ in 0..n_idem {
+			let g = new_graph();
+			r.rec.directive("reset");
+			for _ in 0..rng.below(6) { let op = match rng.below(3) { 0 => gen.ca(&mut rng, true), 1 => gen.cu(&mut rng, &ctx, &g, &tm, None), _ => gen.na(&mut rng, &tm) }; r.exec(&g, &op, "E:"); }
+			let s1 = gen.rgs(&mut rng, &tm, None);
+			let d0 = ctx.dump(&g, true);
+			let a1 = r.exec(&g, &s1, "E:");
+			let d1 = ctx.dump(&g, true);
+			let a2 = r.exec(&g, &s1, "E:");
+			let d2 = r.dump(&g, true);
+			if d0 != d1 { idem_changed_first += 1; }
+			if d1 != d2 || a1 != a2 { r.rec.oracle_fail(format!("a rapid-gossip-sync snapshot applied twice is not idempotent: `{}` => {} / {}; after first: {}; after second: {}", ctx.line(&s1), a1, a2, d1, d2)); }
+		}
+		stats.insert("rgs_snapshots_applied_twice", n_idem);
+		stats.insert("rgs_snapshots_applied_twice_first_changed_graph", idem_changed_first);
+		// (2) a snapshot announcement of a tombstoned channel: add_channel_from_partial_announcement has no tombstone test
+		{
+			let g = new_graph();
+			r.rec.directive("reset");
+			r.exec(&g, &ok_ca(3, 1, 2), "E:");
+			r.exec(&g, &Op::Fc { scid: 3 }, "E:");
+			let p2p = r.exec(&g, &ok_ca(3, 1, 2), "E:");
+			r.exec(&g, &snap(vec![(3, None, 1, 2)], vec![]), "E:");
+			let d = r.dump(&g, true);
+			stats.insert("rgs_resurrects_tombstoned_channel_on_real_code", (p2p.contains("RecentlyRemoved") && d.starts_with("C 3:1:2:") && d.contains("RC 3@")) as u64);
+		}
+		// (3) incremental snapshot update vs. an older P2P update of the same direction: both orders
+		{
+			let cu = |ts: u64, base: u64| Op::Cu { scid: 3, dir: false, disabled: false, ts, cltv: 40, min: 1, max: 4000, base, prop: 2, chain_ok: true, dont_fwd: false, verify: true, signer: 1 };
+			let inc = snap(vec![], vec![(3, 128 | 64, [144, 0, 0, 0, 0])]);
+			let mut dumps = vec![];
+			for order in [[0usize, 1], [1, 0]] {
+				let g = new_graph();
+				r.rec.directive("reset");
+				r.exec(&g, &ok_ca(3, 1, 2), "E:");
+				r.exec(&g, &cu(t - 10, 1), "E:");
+				let two = [cu(t - 5, 2), inc.clone()];
+				for &j in &order { r.exec(&g, &two[j], "E:"); }
+				dumps.push(r.dump(&g, true));
+			}
+			stats.insert("rgs_incremental_vs_older_p2p_update_order_dependent_on_real_code", (dumps[0] != dumps[1]) as u64);
+		}
+	}
 	let elapsed = SystemTime::now().duration_since(UNIX_EPOCH).unwrap().as_secs() - ctx.t0;
 	if elapsed >= WINDOW - 600 { r.rec.oracle_fail(format!("harness ran {}s: wall-clock canonicalisation window exceeded (machinery, not the library)", elapsed)); }
-	rec.notes.insert("rule".into(), format!("per message set: phase A = random interleaving of signed/unsigned/forged/stale/duplicate/conflicting gossip with permanent failures and pruning at threshold times (differential + oracles: forged or rejected message leaves the graph unchanged, last_update monotone); phase B = {} random admissible orders of one message multiset with distinct timestamps (oracle: equal dumps and byte-identical canonical encodings) ; phase C = one random inadmissible order; write/read round trip after A and B. distinct = distinct op-line texts", n_orders));
+	rec.notes.insert("rule".into(), format!("per message set: phase A = random interleaving of signed/unsigned/forged/stale/duplicate/conflicting gossip with permanent failures and pruning at threshold times (differential + oracles: forged or rejected message leaves the graph unchanged, last_update monotone); phase B = {} random admissible orders of one message multiset with distinct timestamps (oracle: equal dumps and byte-identical canonical encodings) ; phase C = one random inadmissible order; phase A also applies generated version-2 rapid-gossip-sync snapshots through RapidGossipSync::update_network_graph_no_std (oracle: no stored update / node announcement replaced by older-or-equal data); phase E = snapshots applied twice (idempotence oracle), tombstone and incremental-order scenarios; write/read round trip after A and B. distinct = distinct op-line texts", n_orders));
 	for (k, v) in stats.iter() { rec.notes.insert((*k).into(), v.to_string()); }
-	rec.notes.insert("not_exercised".into(), "production-only wall-clock freshness test of update_channel_internal (cfg not(_test_utils)); asynchronous UTXO lookups; rapid-gossip-sync snapshots (rgs_partial)".into());
+	rec.notes.insert("not_exercised".into(), "production-only wall-clock freshness test of update_channel_internal (cfg not(_test_utils)); asynchronous UTXO lookups; rapid-gossip-sync: version-1 snapshots, node addresses / feature changes (not part of the dump), the forwards-compatibility additional-data paths of updates".into());
 	rec.notes.insert("node_channel_list_order".into(), "NodeInfo.channels is kept in arrival order by the library (and compared in that order by NodeInfo::eq / written in that order); the oracle and the model compare it as a set".into());
 	rec.finish();
 }
